@@ -73,3 +73,18 @@ Theorem C07_adoption_error_refuted : exists W ls s s1, wf W = true /\
   (forall k, In (DJob k) (deps W 2) -> st (jobs s k) = DONE).
 Proof. exact adoption_error_refuted. Qed.
 Print Assumptions C07_adoption_error_refuted.
+
+(* the reading of "unless it had already succeeded in an earlier run" made explicit: A <- B <- C, B has its
+   success marker, A is run again and fails, C never ran.  B is DONE by its marker and C, whose only
+   dependency is DONE, is launched once and ends DONE; leaving the experiment raises.  A job decided by an
+   earlier run cuts the failure chain (the ancestor relation `fanc` of C07_failed_ancestor_not_launched) *)
+Theorem C07_marker_cuts_chain :
+  let s := final W_cut all_fixed (expand W_cut all_fixed (init W_cut) X_cut) in
+  wf W_cut = true /\
+  is_some (steps_gen W_cut all_fixed (init W_cut) (expand W_cut all_fixed (init W_cut) X_cut)) = true /\
+  queue s = [] /\ has_pending s W_cut = false /\
+  pc (jobs s 0) = PReturned ERROR /\
+  pc (jobs s 1) = PReturned DONE /\ launches (jobs s 1) = 0%nat /\
+  pc (jobs s 2) = PReturned DONE /\ launches (jobs s 2) = 1%nat /\ wst s = WRaised.
+Proof. exact marker_cuts_chain. Qed.
+Print Assumptions C07_marker_cuts_chain.
